@@ -12,7 +12,8 @@ mvars == <<phase, seed, cls>>
 R1 == {<<1,1>>, <<2,1>>, <<3,1>>, <<4,1>>, <<5,1>>, <<7,1>>, <<8,1>>, <<12,1>>, <<16,1>>,
        <<40,1>>, <<8,10>>, <<12,10>>, <<5,10>>, <<25,10>>}
 RQ == {<<1,1>>, <<2,1>>, <<3,1>>, <<5,1>>, <<12,1>>, <<40,1>>, <<8,10>>, <<12,10>>}
-S1 == {1, 2, 3, 5, 8, 9, 31, 32, 33, 63, 64, 65, 100, 1000, 1000000000}
+S1 == {1, 2, 3, 5, 8, 9, 31, 32, 33, 63, 64, 65, 100, 1000, 1000000000,
+       4194304, 4194305, 33554433, 536870912, 536870913}      \* 2^k and 2^k + 1 for large k
 SizeTriples == {<<a, b, c>> : a \in S1, b \in {1, 33, 1000}, c \in {2, 64, 1000000000}}
 SizeTriplesT == {<<1000, 1000, 1000>>, <<100, 33, 9>>, <<5, 1000, 64>>, <<1000000000, 2, 1>>,
                  <<1, 1, 1>>, <<65, 64, 63>>, <<31, 32, 33>>, <<8, 1000000000, 3>>,
